@@ -299,6 +299,43 @@ def _caches():
     return out
 
 
+def scramble_inputs(inp):
+    """what a caller may do with ITS OWN objects after a call returned: reuse the qubit list, extend the circuit, edit the graph,
+    overwrite the matrices.  A result that was correct must not change through this (it must not alias its inputs)."""
+    done = []
+    q = inp.get("qubits")
+    if isinstance(q, list) and len(q) >= 2:
+        q[0], q[-1] = q[-1], q[0]
+        q.append(q[0])
+        done.append("qubits")
+    qc = inp.get("circuit")
+    if qc is not None:
+        try:
+            qc.x(0)
+            if isinstance(qc.metadata, dict):
+                qc.metadata["scrambled"] = True
+                for k in list(qc.metadata):
+                    if k != "scrambled" and not isinstance(qc.metadata[k], (str, int, float)):
+                        pass
+            done.append("circuit")
+        except Exception:  # noqa: BLE001
+            pass
+    g = inp.get("graph")
+    if g is not None:
+        g.adjacency_matrix.fill(0)
+        done.append("graph")
+    st = inp.get("stab")
+    if st is not None:
+        try:
+            st.R[...] = 0
+            st.S[...] = 0
+            st.phases[...] = 1
+            done.append("stab")
+        except Exception:  # noqa: BLE001
+            pass
+    return done
+
+
 def reset_caches():
     """cold start: forget everything the library has cached at module level.  Every dict-valued module attribute whose name
     ends in 'cache' in any htstabilizer module is cleared, and cache_clear() is called on functools caches, so a renamed or
